@@ -361,6 +361,8 @@ pub struct RlFile {
     /// Maximal runs of set bits as decoded: (start, length).
     pub runs: Vec<(u64, u64)>,
     pub blocks: u64,
+    /// Per block: (set bits, bits) encoded before the block.
+    pub samples: Vec<(u64, u64)>,
     pub sample_width: u64,
     pub max_units_per_value: u64,
     pub greedy: bool,
@@ -493,7 +495,8 @@ pub fn read_rl(r: &mut Reader, problems: &mut Vec<String>) -> Res<RlFile> {
             greedy = false;
         }
     }
-    Ok(RlFile { len, ones, runs, blocks, sample_width: samples.width, max_units_per_value: max_units, greedy })
+    let sample_pairs = samples.values.chunks(2).map(|c| (c[0], c[1])).collect();
+    Ok(RlFile { len, ones, runs, blocks, samples: sample_pairs, sample_width: samples.width, max_units_per_value: max_units, greedy })
 }
 
 /// Encodes a run-length bitvector from maximal runs; `extra_sample_width` is added to the minimal
